@@ -5,7 +5,7 @@ P="$1"; ID="$2"; TIER="${3:-quick}"
 cd /repo || exit 2
 if ! git diff --quiet; then echo "repo dirty"; exit 2; fi
 git apply "$P" || { echo "patch failed"; exit 2; }
-cd /verif && ./check "$ID" --tier "$TIER" 2>&1 | tail -n 12
+cd /verif && timeout 1200 ./check "$ID" --tier "$TIER" 2>&1 | tail -n 12
 RC=${PIPESTATUS[0]}
 git -C /repo checkout -- . 
 echo "check rc=$RC"
